@@ -114,17 +114,17 @@ def _judge_A(ctx, objs, rc, out, tier_label):
             cf = case["c"]["f"] + ("+fix" if case["c"].get("fix") else "")
             fields = ",".join(o.get("fields", []))
             if case.get("wf"):
-                key = "wf-not-read-back:v%s:%s:%s" % (case["v"], fields, act_open)
-                msg = "a well-formed version %s file was not read back as stored (%s; open=%s)" % (
-                    case["v"], fields, act_open)
+                key = "wf-not-read-back:%s:v%s:%s:%s" % (o.get("flavour"), case["v"], fields, act_open)
+                msg = "a well-formed version %s file was not read back as stored (reader flavour '%s': %s; open=%s)" % (
+                    case["v"], o.get("flavour"), fields, act_open)
                 viol = True
             elif case.get("doc") and exp_open == "ok" and act_open == "ok":
-                key = "accepted-content-differs:%s:%s" % (cf, fields)
-                msg = "a file that is well-formed by the document and was accepted is returned with other content (%s after corruption %s)" % (fields, cf)
+                key = "accepted-content-differs:%s:%s:%s" % (o.get("flavour"), cf, fields)
+                msg = "a file that is well-formed by the document and was accepted is returned with other content (reader flavour '%s': %s after corruption %s)" % (o.get("flavour"), fields, cf)
                 viol = True
             else:
-                key = "drift:%s:spec=%s:impl=%s:%s" % (cf, exp_open, act_open, fields)
-                msg = "corruption %s: spec verdict %s, reader %s (%s)" % (cf, exp_open, act_open, fields)
+                key = "drift:%s:%s:spec=%s:impl=%s:%s" % (o.get("flavour"), cf, exp_open, act_open, fields)
+                msg = "corruption %s: spec verdict %s, reader (%s) %s (%s)" % (cf, exp_open, o.get("flavour"), act_open, fields)
                 viol = False
             g = groups.setdefault(key, {"n": 0, "first": o, "viol": viol, "msg": msg})
             g["n"] += 1
@@ -236,18 +236,69 @@ def _report_event(ctx, what, ev, trace, lineno):
             msg = "MapTrace.tla rejects the calls recorded for sweep %s (open=%s)" % (json.dumps(ev.get("sw")), ev.get("open"))
         ctx.report(key, msg, case)
         return
-    fp, rp = ev.get("file_panic", {}), ev.get("raw_panic", {})
-    p = fp if fp.get("msg") else rp
+    fp, rp, op = ev.get("file_panic", {}), ev.get("raw_panic", {}), ev.get("off_panic", {})
+    p = fp if fp.get("msg") else (rp if rp.get("msg") else op)
+    # which reader flavour deviates from datafile::Reader::open (file) -- for the key only
+    which = "file" if ev.get("off_same", True) and ev.get("raw_same", True) else \
+        ("offset" if not ev.get("off_same", True) else "raw")
     if p.get("msg"):
         key = _panic_key(p.get("stage", ""), p.get("loc", ""), p.get("msg", ""))
         msg = "the reader panicked on a recorded file (%s): %s at %s" % (ev.get("mut"), p.get("msg"), p.get("loc"))
     elif ev.get("wf"):
-        key = "wf-not-read-back:B:%s" % ev["file"].get("open")
-        msg = "a well-formed file written by the independent writer was not read back as stored (open=%s)" % ev["file"].get("open")
+        key = "wf-not-read-back:%s:B:%s" % (which, ev["file"].get("open"))
+        msg = "a well-formed file written by the independent writer was not read back as stored (reader flavour '%s', open=%s)" % (which, ev["file"].get("open"))
     else:
-        key = "trace-rejected:%s:%s" % (str(ev.get("mut")).split(":")[0], ev["file"].get("open"))
-        msg = "DatafileTrace.tla rejects the event (mutation %s, open=%s)" % (ev.get("mut"), ev["file"].get("open"))
+        key = "trace-rejected:%s:%s:%s" % (which, str(ev.get("mut")).split(":")[0], ev["file"].get("open"))
+        msg = "DatafileTrace.tla rejects the event (mutation %s, reader flavour '%s', open=%s)" % (ev.get("mut"), which, ev["file"].get("open"))
     ctx.report(key, msg, {k: ev[k] for k in ("mut", "wf", "stored", "probes", "bytes", "z")})
+
+
+def _binding_selftest(ctx, b_events, mtrace):
+    """Demonstrates that the trace specs really bind: a recorded trace with one logged field
+    corrupted (an item word / a data byte of a well-formed file's read-back, an outcome turned
+    into "panic", a handed-out index moved out of range) must be REJECTED by TLC."""
+    import copy
+    tampered = []
+    wf = [e for e in b_events if e.get("wf") and e["file"].get("items") and e["file"].get("data")]
+    if wf:
+        e = copy.deepcopy(wf[0])
+        it = next((x for x in e["file"]["items"] if x["w"]), None)
+        if it is not None:
+            it["w"][0] ^= 1
+            tampered.append(("item word of a read-back changed", "DatafileTrace.tla", [wf[0], e]))
+        e2 = copy.deepcopy(wf[0])
+        blk = next((d for d in e2["file"]["data"] if d["b"]), None)
+        if blk is not None:
+            blk["b"][-1] ^= 0x80
+            tampered.append(("data byte of a read-back changed", "DatafileTrace.tla", [wf[0], e2]))
+    if b_events:
+        e3 = copy.deepcopy(b_events[0])
+        e3["file"]["open"] = "panic"
+        tampered.append(("outcome replaced by panic", "DatafileTrace.tla", [e3]))
+    if mtrace and os.path.exists(mtrace):
+        with open(mtrace) as fh:
+            m0 = json.loads(fh.readline())
+        m1 = copy.deepcopy(m0)
+        for c in m1["calls"]:
+            if c["idx"]:
+                c["idx"][0]["v"] = 10 ** 6
+                break
+        tampered.append(("handed-out index moved out of range", "MapTrace.tla", [m0, m1]))
+        m2 = copy.deepcopy(m0)
+        m2["calls"][0]["out"] = "panic"
+        tampered.append(("map call outcome replaced by panic", "MapTrace.tla", [m2]))
+    results = []
+    for i, (what, module, evs) in enumerate(tampered):
+        pth = os.path.join(ctx.workdir, "tampered-%d.ndjson" % i)
+        with open(pth, "w") as fh:
+            for e in evs:
+                fh.write(json.dumps(e) + "\n")
+        ok, res = core.validate_trace(module, "Trace.cfg", pth, cwd=CWD, timeout=600, extra_env=_jenv(ctx))
+        rejected = (not ok) and "TRACE REJECTED" in res.out
+        results.append({"tampering": what, "module": module, "rejected": rejected})
+        if not rejected:
+            raise core.ToolError("binding self-test: a tampered trace (%s) was NOT rejected by %s" % (what, module))
+    ctx.coverage["binding_selftest"] = results
 
 
 # ---------------------------------------------------------------------------------------- run
@@ -404,6 +455,9 @@ def _run(ctx, bins, scratch, quick):
             first = json.loads(fh.readline())
         ctx.sample({"direction": "map", "sweep": first.get("sw"), "calls": [
             "%s(%s)=%s" % (c["f"], c["a"], c["out"]) for c in first.get("calls", [])[:14]]})
+
+    if not quick:
+        _binding_selftest(ctx, b_events, mtrace if msum else None)
 
     # ---- evidence
     if b_events:
